@@ -45,8 +45,17 @@ fn ref_new_one_contig<const L: usize, const WITH_N: bool>() {
     while i < L { assert!(r.seq[0][i] == upper(seq[i]), "stored reference base is upper-case"); i += 1; }
     assert!(r.chrom_names.len() == 1, "one contig name");
     kani::cover!(n_spec == L - K + 1 && seq[0] == b'a', "all windows valid, lower-case first base");
+    kani::cover!(WITH_N && is_n(seq[0]) && n_spec >= 1, "first window invalid, a later one indexed");
     std::mem::forget(r);
 }
+#[kani::proof]
+#[kani::stub(core::str::from_utf8, stub_from_utf8)]
+#[kani::unwind(8)]
+fn ref_new_l5() { ref_new_one_contig::<5, false>(); }
+#[kani::proof]
+#[kani::stub(core::str::from_utf8, stub_from_utf8)]
+#[kani::unwind(9)]
+fn ref_new_l6_n() { ref_new_one_contig::<6, true>(); }
 #[kani::proof]
 #[kani::stub(core::str::from_utf8, stub_from_utf8)]
 #[kani::unwind(9)]
@@ -154,5 +163,59 @@ fn ref_new_repeats_case_mask_5_1_5() {
     let mut q = 0;
     while q < 10 { assert!(r.repeat_coors[q] == exp[q], "repeat mask = absolute positions within (k-1)/2 of the centre of the repeated split k-mer"); q += 1; }
     kani::cover!(flat[0] == b'a' && flat[10] == b'A', "mixed case");
+    std::mem::forget(r);
+}
+
+/// C04.ref (small): contigs "AC?TA", "?", "AC?TA": the arms are concrete (so the two split k-mers are the same key and the
+/// hash-set path stays concrete), the two middle bases (either case), the single base of the middle contig (any of
+/// A/C/G/T/N in either case) and the strand mode are symbolic. The only split k-mer of contig 1 is repeated on contig 3;
+/// contig 2 is shorter than k and has no k-mer at all. The repeat mask must be exactly the absolute positions 0..=4 and
+/// 6..=10 (within (k-1)/2 of the two centres 2 and 8).
+#[kani::proof]
+#[kani::stub(core::str::from_utf8, stub_from_utf8)]
+#[kani::unwind(13)]
+fn ref_new_repeats_mid_5_1_5() {
+    const T: usize = 11;
+    let mut flat = *b"ACGTAGACGTA";
+    flat[2] = any_base();
+    flat[8] = any_base();
+    flat[5] = any_nt();
+    let rc: bool = kani::any();
+    vfs_set(vec![ModelFile { path: "ref.fa", records: vec![
+        ModelRecord { id: b"c1", seq: flat[0..5].to_vec(), qual: None },
+        ModelRecord { id: b"c2", seq: flat[5..6].to_vec(), qual: None },
+        ModelRecord { id: b"c3", seq: flat[6..11].to_vec(), qual: None }] }]);
+    let r = RefSka::<u64>::new(K, &vfs_path("ref.fa"), rc, false, true);
+    assert!(r.split_kmer_pos.len() == 2, "one split k-mer on the first and one on the third contig");
+    assert!(r.split_kmer_pos[0].kmer == r.split_kmer_pos[1].kmer, "the same split k-mer");
+    assert!(r.split_kmer_pos[0].chrom == 0 && r.split_kmer_pos[1].chrom == 2 && r.split_kmer_pos[0].pos == 2 && r.split_kmer_pos[1].pos == 2, "contig and centre");
+    let exp = [0usize, 1, 2, 3, 4, 6, 7, 8, 9, 10];
+    assert!(r.repeat_coors.len() == exp.len(), "repeat mask covers both windows, nothing else");
+    let mut q = 0;
+    while q < 10 { assert!(r.repeat_coors[q] == exp[q], "repeat mask = absolute positions within (k-1)/2 of the centre of the repeated split k-mer"); q += 1; }
+    kani::cover!(flat[2] == b'a' && flat[8] == b'T' && is_n(flat[5]), "different middle bases, N on the short contig");
+    std::mem::forget(r);
+}
+
+/// C04.ref (small, adjacent contigs): contigs "AC?TA", "AC?TAC": three windows, the first two are the same split k-mer;
+/// the third ("C?TAC") is different. Repeat mask = 0..=4 and 5..=9.
+#[kani::proof]
+#[kani::stub(core::str::from_utf8, stub_from_utf8)]
+#[kani::unwind(13)]
+fn ref_new_repeats_mid_5_6() {
+    let mut flat = *b"ACGTAACGTAC";
+    flat[2] = any_base();
+    flat[7] = any_base();
+    vfs_set(vec![ModelFile { path: "ref.fa", records: vec![
+        ModelRecord { id: b"c1", seq: flat[0..5].to_vec(), qual: None },
+        ModelRecord { id: b"c2", seq: flat[5..11].to_vec(), qual: None }] }]);
+    let r = RefSka::<u64>::new(K, &vfs_path("ref.fa"), false, false, true);
+    assert!(r.split_kmer_pos.len() == 3, "one split k-mer on the first and two on the second contig");
+    assert!(r.split_kmer_pos[0].kmer == r.split_kmer_pos[1].kmer && r.split_kmer_pos[2].kmer != r.split_kmer_pos[0].kmer, "first two are the same split k-mer");
+    let exp = [0usize, 1, 2, 3, 4, 5, 6, 7, 8, 9];
+    assert!(r.repeat_coors.len() == exp.len(), "repeat mask covers the two repeated windows, nothing else");
+    let mut q = 0;
+    while q < 10 { assert!(r.repeat_coors[q] == exp[q], "repeat mask = absolute positions within (k-1)/2 of the centre of the repeated split k-mer"); q += 1; }
+    kani::cover!(flat[2] == b'a' && flat[7] == b'T', "different middle bases");
     std::mem::forget(r);
 }
